@@ -145,7 +145,7 @@ theorem elsePart_ok (cx : Cx) (fuel : Nat) (E : Nat) (s0 : St) (env : Src.Env) (
     refine ⟨e, ⟨?_, fun k b => Grow.refl b, fun r q hp k b _ m j _ _ hend => ⟨?_, LabExport.same (fun _ _ => rfl)⟩⟩⟩
     · rw [hP]; intro x hx root e'; simp at hx; subst hx; cases e'
     · rw [hP] at hp
-      have hit : itemAt cx.rs ⟨r, q⟩ = some (.ljump ⟨s.opc + 1, Gen.op_jump, []⟩ (some E)) := by
+      have hit : ItemC cx.cp cx.rs ⟨r, q⟩ (.ljump ⟨s.opc + 1, Gen.op_jump, []⟩ (some E)) := by
         simpa using hp.item (d := 0) rfl
       exact end_jump_corr cx E hit hend
 
